@@ -68,6 +68,8 @@ def gen_program(rng, nmax=8, serial_bias=False, fail_rate=0.35):
                 opts += ["err", "err", "fatal", "fatal"]
             t = rng.choice(opts)
             res = {"t": t, "code": rng.choice(CODES) if t in ("fatal", "panicfatal") else 1}
+            if rng.random() < 0.25:
+                res["silent"] = True        # the failure carries an EMPTY message: it is a failure all the same
         nd = {"kind": kind, "slot": slot, "calls": calls, "result": res}
         if args is not None:
             nd["args"] = args
@@ -105,6 +107,9 @@ def outcome_term(k, r):
     t = r["t"]
     if t == "ok":
         return "Ok"
+    if r.get("silent"):
+        return {"err": "(Err 1 [])", "fatal": "(Err %d [])" % r["code"], "panicerr": "(PanicErr 1 [])",
+                "panicfatal": "(PanicErr %d [])" % r["code"]}.get(t, "(PanicVal [])")
     if t == "err":
         return "(Err 1 [%d])" % k
     if t == "fatal":
